@@ -14,7 +14,13 @@ RULE = (
     "each member's previous/next/is_first/is_last, backward walk) is compared with the Lean model and with "
     "Spec.C07.holds on the abstract list. Sources: corpus; exhaustive inductive step (every state of size<=N built "
     "with stale removed elements x every set partition of value-equality x every admissible op); every API history to "
-    "depth D; random long histories. non-trivial = history contains at least one operation; distinct by full case."
+    "depth D; random long histories. With `loops` (one entry per operation: null = plain call, t = the call is made "
+    "from the body of a complete for-loop over the same container when the loop reaches its t-th element, or right "
+    "after the loop if it is shorter) the container is not looked at while a history runs: the observation after i "
+    "operations is taken from a fresh container that received the first i operations in this way, so loops in "
+    "progress during a change, loops completed before it and the absence of any earlier observation are all part of "
+    "the history, and the expected observation stays the model's for the plain operation sequence. "
+    "non-trivial = history contains at least one operation; distinct by full case."
 )
 ASSUMPTIONS = [
     "object identity is mapped to creation-order ids on both sides",
@@ -149,9 +155,39 @@ def big_container(case):
     return {"obs": [], "exc": None, "big_why": why}
 
 
-def run_impl(case):
-    if case.get("big"):
-        return big_container(case)
+def _apply(c, el, op):
+    name = op[0]
+    if name == "prepend":
+        c.preppend(el(op[1], next=c.first))
+    elif name == "append":
+        c.append(el(op[1], previous=c.last))
+    elif name == "add_before":
+        a = el(op[1])
+        c.add_before(a, el(op[2], previous=a.previous, next=a))
+    elif name == "add_after":
+        a = el(op[1])
+        c.add_after(a, el(op[2], previous=a, next=a.next))
+    elif name == "remove":
+        c.remove(el(op[1]))
+
+
+def _apply_in_loop(c, el, op, t, cap):
+    """the usual `for x in container: if <this is the one>: container.<op>(...)`: the call is made once, when the
+    loop reaches its t-th element, and the loop then runs on to its end (or the call follows a complete loop that
+    was shorter than that); the cap only keeps a cyclic chain from hanging the harness"""
+    done, n = False, 0
+    for _x in c:
+        if n == t and not done:
+            done = True
+            _apply(c, el, op)
+        n += 1
+        if n > cap:
+            break
+    if not done:
+        _apply(c, el, op)
+
+
+def _fresh(case):
     ecls, ccls = classes()[case["family"]]
     vals = case["vals"]
     elems, ident = {}, {}
@@ -166,25 +202,44 @@ def run_impl(case):
             ident[id(e)] = i
         return elems[i]
 
+    return ccls(el(0)), el, ident
+
+
+def run_unobserved(case):
+    """`loops` cases: observation #i comes from a fresh container that received ops[:i] with nothing looking at it
+    in between (op j made from inside a for-loop over the container when loops[j] is a number)"""
     fuel = fuel_of(case)
-    c = ccls(el(0))
+    ops, loops = case["ops"], case["loops"]
+    obs, exc = [], None
+    for i in range(len(ops) + 1):
+        c, el, ident = _fresh(case)
+        j = 0
+        try:
+            for j in range(i):
+                t = loops[j] if j < len(loops) else None
+                if t is None:
+                    _apply(c, el, ops[j])
+                else:
+                    _apply_in_loop(c, el, ops[j], t, 4 * fuel)
+        except Exception as e:
+            exc = {"step": j + 1, "exc": type(e).__name__, "msg": str(e)[:200]}
+            break
+        obs.append(observe(c, ident, fuel))
+    return {"obs": obs, "exc": exc}
+
+
+def run_impl(case):
+    if case.get("big"):
+        return big_container(case)
+    if case.get("loops") is not None:
+        return run_unobserved(case)
+    c, el, ident = _fresh(case)
+    fuel = fuel_of(case)
     obs = [observe(c, ident, fuel)]
     exc = None
     for op in case["ops"]:
         try:
-            name = op[0]
-            if name == "prepend":
-                c.preppend(el(op[1], next=c.first))
-            elif name == "append":
-                c.append(el(op[1], previous=c.last))
-            elif name == "add_before":
-                a = el(op[1])
-                c.add_before(a, el(op[2], previous=a.previous, next=a))
-            elif name == "add_after":
-                a = el(op[1])
-                c.add_after(a, el(op[2], previous=a, next=a.next))
-            elif name == "remove":
-                c.remove(el(op[1]))
+            _apply(c, el, op)
             obs.append(observe(c, ident, fuel))
         except Exception as e:
             exc = {"step": len(obs), "exc": type(e).__name__, "msg": str(e)[:200]}
@@ -210,7 +265,13 @@ def judge(case, obs, resp):
         if not f["model_holds"]:
             return {"status": "error", "why": "model violates Spec.C07.holds (theorem would be false)"}
         if not f["holds"]:
-            return {"status": "oracle", "why": f"after op #{f['step']} the container differs from the list {f['spec_list']}"}
+            how = ""
+            if case.get("loops") is not None and f["step"] > 0:
+                lp = list(case["loops"])[: f["step"]]
+                how = " (fresh container, not looked at before; " + ", ".join(
+                    f"op #{j + 1} " + ("called plainly" if t is None else f"called inside a for-loop over the container at its element #{t}")
+                    for j, t in enumerate(lp)) + ")"
+            return {"status": "oracle", "why": f"after op #{f['step']}{how} the container differs from the list {f['spec_list']}"}
         return {"status": "corr", "why": f"model/implementation disagree after op #{f['step']}"}
     if obs.get("exc"):
         e = obs["exc"]
@@ -229,6 +290,9 @@ def features(case, obs):
         f.append("value_equal_members")
     if case.get("ctor_links"):
         f.append("elements_built_with_link_arguments")
+    if case.get("loops") is not None:
+        f.append("unobserved_history")
+        f += [f"in_loop_op={op[0]}" for op, t in zip(case["ops"], case["loops"]) if t is not None]
     return f
 
 
@@ -429,23 +493,39 @@ def cases_of(chunk):
                     yield {"family": chunk["family"], "vals": [0] * nid, "ops": h}
                 if h and i % 4 == 1:
                     yield {"family": chunk["family"], "vals": list(range(nid)), "ops": h, "ctor_links": True}
+                if h and i % 5 == 2:
+                    # three calls in four made from inside a loop over the container (at its element #0, #1 or #2)
+                    loops = [None if (i + j) % 4 == 3 else (i // 5 + j) % 3 for j in range(len(h))]
+                    yield {"family": chunk["family"], "vals": [0] * nid if i % 2 else list(range(nid)), "ops": h, "loops": loops}
     elif k == "random":
         rng = random.Random(chunk["seed"])
         for _ in range(chunk["n"]):
             c = random_history(rng, rng.randrange(1, chunk["len"] + 1), chunk["family"])
             if rng.random() < 0.3:
                 c["ctor_links"] = True
+            if len(c["ops"]) <= 14 and rng.random() < 0.5:
+                c["loops"] = [rng.randrange(0, 5) if rng.random() < 0.6 else None for _ in c["ops"]]
             yield c
 
 
 def shrinks(case):
     ops = case["ops"]
+    lp = case.get("loops")
+    cut = lambda f: {} if lp is None else {"loops": f(list(lp) + [None] * (len(ops) - len(lp)))}
     # drop one op (keeping admissibility is checked by the driver: inadmissible -> skip)
     for i in range(len(ops)):
-        yield {**case, "ops": ops[:i] + ops[i + 1 :]}
+        yield {**case, "ops": ops[:i] + ops[i + 1 :], **cut(lambda l: l[:i] + l[i + 1 :])}
     # truncate
     for i in range(len(ops) - 1, 0, -1):
-        yield {**case, "ops": ops[:i]}
+        yield {**case, "ops": ops[:i], **cut(lambda l: l[:i])}
+    if lp is not None:
+        # plain calls instead of calls from inside a loop, one at a time, then an earlier loop position
+        for i, t in enumerate(lp):
+            if t is not None:
+                yield {**case, "loops": lp[:i] + [None] + lp[i + 1 :]}
+        for i, t in enumerate(lp):
+            if t:
+                yield {**case, "loops": lp[:i] + [t - 1] + lp[i + 1 :]}
     # make values distinct
     if len(set(case["vals"])) < len(case["vals"]):
         yield {**case, "vals": list(range(len(case["vals"])))}
